@@ -11,7 +11,8 @@ CHECKS = {
           "(AST re-read from /repo each run) with all 7 switches, an unbounded prefix string, an unbounded name string and an "
           "uninterpreted attribute-existence predicate as solver variables; every path verdict is a z3 unsat of the negated "
           "policy oracle (an allowed name that exists on the object is itself what is accessed; the exposed twin stands in only otherwise); every explored path of _check_attr is also replayed concretely on CPython (translator validation). "
-          "This covers the whole switch x name x object-shape x operation space at once, which the 5x7 sample of the suite cannot."),
+          "This covers the whole switch x name x object-shape x operation space at once, which the 5x7 sample of the suite cannot. Objects with their "
+          "own attribute hooks (restricted views) are checked separately: every by-name handler must go through the hook whatever the switches say."),
     note=("Trusted: z3; the interpreter (validated per path against CPython for O1); spy objects abstract the target object's "
           "attribute protocol; when the allowed name does not exist on the object and a twin does, either target is accepted (the text is silent). "
           "Isolation histories bounded to length 2 (quick) / 3 (thorough)."),
